@@ -35,6 +35,14 @@ Theorem C17_latlng_translated :
 Proof. exact latlng_translated. Qed.
 Print Assumptions C17_latlng_translated.
 
+(* time.go likewise: the translated IsBaseTime, decodeDateTime and encodeTime are the model's functions on every
+   argument (every uint32 second count and every time.Time of the model), timeBase is the model's epoch *)
+Theorem C17_time_translated :
+  go_var_timeBase = time_base /\ (forall t, go_IsBaseTime t = is_base_time t) /\
+  (forall dt, go_decodeDateTime dt = decode_date_time dt) /\ (forall t, go_encodeTime t = encode_time t).
+Proof. exact time_translated. Qed.
+Print Assumptions C17_time_translated.
+
 Theorem C17_time_source_agrees :
   match src_timeBase with
   | (y :: m :: d :: h :: mi :: s :: ns :: nil)%list =>
@@ -42,8 +50,7 @@ Theorem C17_time_source_agrees :
       ns = t_nsec time_base
   | _ => False
   end /\
-  src_timeBase_loc = "UTC"%string /\ t_zone time_base = None /\
-  src_decodeDateTime = (("*"%string, second) :: nil)%list /\ src_encodeTime = (("/"%string, second) :: nil)%list.
+  src_timeBase_loc = "UTC"%string /\ t_zone time_base = None.
 Proof. exact time_consts_agree. Qed.
 
 (* ---- coordinates: for every 32-bit semicircle value ---- *)
